@@ -506,6 +506,9 @@ func checkC08Wiring(p *Prog, r *Report, ru *Rule, get *ssa.Function) {
 // returns the flag's constant name.
 func flagNameOf(v ssa.Value) string {
 	v = resolveCell(v)
+	if n := flagFieldNameOf(v); "" != n {
+		return n
+	}
 	u, ok := v.(*ssa.UnOp)
 	if !ok || token.MUL != u.Op {
 		return ""
@@ -691,4 +694,69 @@ func checkC08Outside(p *Prog, r *Report, ru *Rule) {
 			})
 		}
 	}
+}
+
+// flagFieldNameOf: v is field k of a local struct variable (read after the
+// whole struct was loaded, or through the field's address) which
+// flag.TVar(&s.k, name, …) registered, and which nothing else writes: the
+// flag's constant name.
+func flagFieldNameOf(v ssa.Value) string {
+	var al *ssa.Alloc
+	k := -1
+	switch x := v.(type) {
+	case *ssa.Field:
+		if ld, ok := x.X.(*ssa.UnOp); ok && token.MUL == ld.Op {
+			al, _ = resolveFree(ld.X).(*ssa.Alloc)
+			k = x.Field
+		}
+	case *ssa.UnOp:
+		if token.MUL == x.Op {
+			if fa, ok := x.X.(*ssa.FieldAddr); ok {
+				al, _ = resolveFree(fa.X).(*ssa.Alloc)
+				k = fa.Field
+			}
+		}
+	}
+	if nil == al || k < 0 {
+		return ""
+	}
+	name, n, bad := "", 0, false
+	for _, f := range withAnons(al.Parent()) {
+		eachInstr(f, func(i ssa.Instruction) {
+			switch y := i.(type) {
+			case *ssa.Store:
+				/* The whole variable, or this field, written by hand. */
+				if resolveFree(y.Addr) == ssa.Value(al) {
+					if _, isC := y.Val.(*ssa.Const); !isC {
+						bad = true
+					}
+				}
+				if fa, ok := y.Addr.(*ssa.FieldAddr); ok && fa.Field == k && resolveFree(fa.X) == ssa.Value(al) {
+					if _, isC := y.Val.(*ssa.Const); !isC {
+						bad = true
+					}
+				}
+				return
+			}
+			cc := callCommon(i)
+			if nil == cc || len(cc.Args) < 2 {
+				return
+			}
+			fa, ok := cc.Args[0].(*ssa.FieldAddr)
+			if !ok || fa.Field != k || resolveFree(fa.X) != ssa.Value(al) {
+				return
+			}
+			cn := calleeName(cc)
+			if strings.HasPrefix(cn, "flag.") && strings.HasSuffix(cn, "Var") {
+				n++
+				name, _ = constString(cc.Args[1])
+			} else {
+				bad = true /* the field's address handed to something else */
+			}
+		})
+	}
+	if bad || 1 != n {
+		return ""
+	}
+	return name
 }
